@@ -79,9 +79,9 @@ theorem run_closed (g : Cfg) (e : Env) : ∀ (n : Nat) (s : S) (acts : List Act)
 /-! ### facts about frames the specification decoder hands out -/
 
 theorem mkD1_complete (b : Bytes) (x0 x1 : UInt8) (v hl : Nat) (tb : Bool) (f : Rfc.Frame) (total : Nat)
-    (h : Rfc.mkD1 b x0 x1 v hl tb = .frame f total) (hp : f.partial = false) :
+    (h : RfcM.mkD1 b x0 x1 v hl tb = .frame f total) (hp : f.partial = false) :
     f.topbit = false ∧ f.payload.length = f.declared ∧ f.op < 16 := by
-  unfold Rfc.mkD1 at h
+  unfold RfcM.mkD1 at h
   simp only at h
   by_cases htb : tb = true
   · rw [if_pos htb] at h; cases h; simp at hp
@@ -102,9 +102,9 @@ theorem mkD1_complete (b : Bytes) (x0 x1 : UInt8) (v hl : Nat) (tb : Bool) (f : 
         simp only [hm, if_false] at this
         simpa using this
 
-theorem decode1_complete (b : Bytes) (f : Rfc.Frame) (total : Nat) (h : Rfc.decode1 b = .frame f total) (hp : f.partial = false) :
+theorem decode1_complete (b : Bytes) (f : Rfc.Frame) (total : Nat) (h : RfcM.decode1 b = .frame f total) (hp : f.partial = false) :
     f.topbit = false ∧ f.payload.length = f.declared ∧ f.op < 16 := by
-  unfold Rfc.decode1 at h
+  unfold RfcM.decode1 at h
   split at h
   · simp only at h
     repeat' split at h
@@ -207,6 +207,33 @@ theorem apply_close (g : Cfg) (e : Env) (k : K) (p : Bytes) (fin r1 : Bool) (hk 
       · exact absurd hv h0
       · exact absurd hv.1 h2
 
+/-- the payload of the close frame written back: an echo for a valid close frame, protocol error 1002 otherwise -/
+theorem close_reply (g : Cfg) (e : Env) (k : K) (p : Bytes) :
+    ∃ d, (handleWs g e k 8 p).1 = send g e k 8 d ++ [.closeConn] ∧
+      ((p.length = 0 ∨ (p.length ≥ 2 ∧ validCloseCode (beDec (p.take 2)) = true ∧ utf8Valid (p.drop 2) = true)) → d = p) ∧
+      (¬ (p.length = 0 ∨ (p.length ≥ 2 ∧ validCloseCode (beDec (p.take 2)) = true ∧ utf8Valid (p.drop 2) = true)) →
+        d = be16 1002 ∨ d = be16 1002 ++ str "invalid UTF-8 bytes") := by
+  by_cases h0 : p.length = 0
+  · have hp0 : p = [] := List.eq_nil_of_length_eq_zero h0
+    refine ⟨[], by unfold handleWs; simp [h0], fun _ => hp0.symm, fun hn => absurd (Or.inl h0) hn⟩
+  · by_cases h2 : p.length ≥ 2
+    · by_cases hc : validCloseCode (beDec (p.take 2)) = true
+      · by_cases hu : utf8Valid (p.drop 2) = true
+        · refine ⟨be16 (beDec (p.take 2)) ++ p.drop 2, by unfold handleWs; simp [h0, h2, hc, hu], fun _ => echo_payload p h2,
+            fun hn => absurd (Or.inr ⟨h2, hc, hu⟩) hn⟩
+        · refine ⟨be16 1002 ++ str "invalid UTF-8 bytes", by unfold handleWs; simp [h0, h2, hc, hu], ?_, fun _ => Or.inr rfl⟩
+          intro hv; rcases hv with hv | hv
+          · exact absurd hv h0
+          · exact absurd hv.2.2 hu
+      · refine ⟨be16 1002, by unfold handleWs; simp [h0, h2, hc], ?_, fun _ => Or.inl rfl⟩
+        intro hv; rcases hv with hv | hv
+        · exact absurd hv h0
+        · exact absurd hv.2.1 hc
+    · refine ⟨be16 1002, by unfold handleWs; simp [h0, h2], ?_, fun _ => Or.inl rfl⟩
+      intro hv; rcases hv with hv | hv
+      · exact absurd hv h0
+      · exact absurd hv.1 h2
+
 /-! ### data frames -/
 
 theorem validFrame_none_data (g : Cfg) (op : Nat) (fin r1 r2 r3 ex : Bool) (h : validFrame g op fin r1 r2 r3 ex = none) (hop : op ≤ 2) :
@@ -276,8 +303,8 @@ theorem finish_fail (g : Cfg) (e : Env) (k1 : K) (h : ∀ out, inflOf g e k1 ≠
   rw [this]
   cases hr : inflOf g e k1 with
   | ok out => exact absurd hr (h out)
-  | tooLarge => exact ⟨_, _, rfl⟩
-  | failed => exact ⟨_, _, rfl⟩
+  | tooLarge hd => exact ⟨_, _, rfl⟩
+  | failed hd => exact ⟨_, _, rfl⟩
   | stuck => exact ⟨_, _, rfl⟩
 
 theorem finish_deliver (g : Cfg) (e : Env) (k1 : K) (out : Bytes) (hr : inflOf g e k1 = .ok out) (hk : k1.connClosed = false)
@@ -353,40 +380,40 @@ theorem agree_idle (g : Cfg) (e : Env) (i0 : Nat) (s : S) (acts : List Act) (evs
 
 theorem rfc_run_reject (rg : Rfc.Cfg) (st : Rfc.St) (i : Nat) (evs : List Rfc.Ev) (f : Rfc.Frame) (fs : List Rfc.Frame) (why : Rfc.Reason)
     (hchk : Rfc.hdrCheck rg st f = some why) (hp : f.partial = false) :
-    Rfc.run rg st i evs (f :: fs) = { verdict := .reject why, at_ := i, evs } := by
-  rw [Rfc.run]; simp [hchk, hp]
+    RfcM.run rg st i evs (f :: fs) = { verdict := .reject why, at_ := i, evs } := by
+  rw [RfcM.run]; simp [hchk, hp]
 
 theorem rfc_run_ping (rg : Rfc.Cfg) (st : Rfc.St) (i : Nat) (evs : List Rfc.Ev) (f : Rfc.Frame) (fs : List Rfc.Frame)
     (hchk : Rfc.hdrCheck rg st f = none) (hp : f.partial = false) (hop : f.op = 9) :
-    Rfc.run rg st i evs (f :: fs) = Rfc.run rg st (i + 1) (evs ++ [.pong f.payload]) fs := by
-  rw [Rfc.run]; simp [hchk, hp, hop]
+    RfcM.run rg st i evs (f :: fs) = RfcM.run rg st (i + 1) (evs ++ [.pong f.payload]) fs := by
+  rw [RfcM.run]; simp [hchk, hp, hop]
 
 theorem rfc_run_pong (rg : Rfc.Cfg) (st : Rfc.St) (i : Nat) (evs : List Rfc.Ev) (f : Rfc.Frame) (fs : List Rfc.Frame)
     (hchk : Rfc.hdrCheck rg st f = none) (hp : f.partial = false) (hop : f.op = 10) :
-    Rfc.run rg st i evs (f :: fs) = Rfc.run rg st (i + 1) evs fs := by
-  rw [Rfc.run]; simp [hchk, hp, hop]
+    RfcM.run rg st i evs (f :: fs) = RfcM.run rg st (i + 1) evs fs := by
+  rw [RfcM.run]; simp [hchk, hp, hop]
 
 theorem rfc_run_close (rg : Rfc.Cfg) (st : Rfc.St) (i : Nat) (evs : List Rfc.Ev) (f : Rfc.Frame) (fs : List Rfc.Frame)
     (hchk : Rfc.hdrCheck rg st f = none) (hp : f.partial = false) (hop : f.op = 8) :
-    Rfc.run rg st i evs (f :: fs) =
+    RfcM.run rg st i evs (f :: fs) =
       if f.payload.length == 0 then { verdict := .closed, at_ := i, evs := evs ++ [.close []] }
       else if f.payload.length == 1 then { verdict := .reject .closeLen, at_ := i, evs }
-      else if !Rfc.closeCodeOk (beDec (f.payload.take 2)) then { verdict := .reject .closeCode, at_ := i, evs }
+      else if !RfcM.closeCodeOk (beDec (f.payload.take 2)) then { verdict := .reject .closeCode, at_ := i, evs }
       else if !utf8Valid (f.payload.drop 2) then { verdict := .reject .closeUtf8, at_ := i, evs }
       else { verdict := .closed, at_ := i, evs := evs ++ [.close f.payload] } := by
-  rw [Rfc.run]; simp [hchk, hp, hop]
+  rw [RfcM.run]; simp [hchk, hp, hop]
 
 theorem rfc_run_data (rg : Rfc.Cfg) (st : Rfc.St) (i : Nat) (evs : List Rfc.Ev) (f : Rfc.Frame) (fs : List Rfc.Frame)
     (hchk : Rfc.hdrCheck rg st f = none) (hp : f.partial = false) (hop : f.op ≤ 2) :
-    Rfc.run rg st i evs (f :: fs) =
-      if !f.fin then Rfc.run rg (stData st f) (i + 1) evs fs
+    RfcM.run rg st i evs (f :: fs) =
+      if !f.fin then RfcM.run rg (stData st f) (i + 1) evs fs
       else match (if (stData st f).comp then rg.infl (stData st f).acc else Rfc.TInfl.ok (stData st f).acc) with
         | .big => { verdict := .reject .tooBig, at_ := i, evs }
         | .err => { verdict := .reject .inflate, at_ := i, evs }
         | .ok msg =>
           if (stData st f).typ == 1 && !utf8Valid msg then { verdict := .reject .utf8, at_ := i, evs }
-          else Rfc.run rg {} (i + 1) (evs ++ [.deliver (stData st f).typ msg]) fs := by
-  rw [Rfc.run]
+          else RfcM.run rg {} (i + 1) (evs ++ [.deliver (stData st f).typ msg]) fs := by
+  rw [RfcM.run]
   have h9 : (f.op == 9) = false := by simp; omega
   have h10 : (f.op == 10) = false := by simp; omega
   have h8 : (f.op == 8) = false := by simp; omega
